@@ -115,6 +115,10 @@ def random_history(rng, n_calls):
 def check(run):
     rng = random.Random(run.seed)
     run.model_check("mc/MC_Lifecycle.tla", "mc/MC_Lifecycle.cfg", workers=8, coverage=False)
+    if run.tier == "thorough":
+        # histories of every length (fixpoint over (disk, view, last call) states; 9.5 million states, ~5 min)
+        r = run.model_check("mc/MC_Lifecycle.tla", "mc/MC_Lifecycle_all.cfg", workers=8, coverage=False, timeout=3000)
+        run.notes["unbounded_histories"] = {"cfg": "mc/MC_Lifecycle_all.cfg", "distinct_states": r["states"], "fixpoint": True}
     hists, st = tlc_generate("mc/MC_Lifecycle.tla", "mc/Gen_Lifecycle.cfg", workers=8)
     log("[gen] %d histories, one per transition of the bounded life-cycle model" % len(hists))
     run.mc.append({"module": "mc/MC_Lifecycle.tla", "cfg": "mc/Gen_Lifecycle.cfg", "states": st["states"], "transitions": st["transitions"],
